@@ -40,6 +40,7 @@ def gen_swarm(rng: random.Random):
              "anon", "multidim", "alias", "dynunion", "structarray", "typedef", "nocompile", "anonenum"]
     on = {f: rng.random() < 0.55 for f in feats}
     on["eof"] = rng.random() < 0.15
+    on["discard"] = rng.random() < 0.2
     return on
 
 
@@ -154,6 +155,12 @@ class DefGen:
                 g = rng.choice(int_fields)
                 forms += [f"({f} & 1) + ({g} & 1)", f"{f} & {g} & 3"]
         forms += [f"{self.define()}", f"{self.define()} + 1", f"{self.define()} * 2 % 5"]
+        if self.sw["alias"] and rng.random() < 0.3:
+            # sizeof of a built-in synonym that is looked up BY NAME when the length is evaluated (alias -> name -> type)
+            al = rng.choice(["BYTE", "WORD", "DWORD", "QWORD", "uint16_t", "LONG", "SHORT", "UCHAR", "u4", "INT8"])
+            forms += [f"sizeof({al}) & 3", f"sizeof({al}) / 2", f"sizeof({al}) % 3 + 1"] * 2
+            if int_fields:
+                forms += [f"({rng.choice(int_fields)} & 1) * sizeof({al})", f"sizeof({al}) / 2 + ({rng.choice(int_fields)} & 1)"] * 2
         if self.structs and not self.dynamic[self.structs[-1]["name"]]:
             forms.append(f"sizeof({self.structs[-1]['name']}) & 3")
         return rng.choice(forms)
@@ -164,6 +171,7 @@ class DefGen:
         # field names are local to a structure (a0, a1, ... / len0, ...): different structures routinely share field
         # names, which matters for everything the library caches per field count or per name. Members of an anonymous
         # nested structure are folded into the parent and therefore draw from the parent's namespace.
+        folded = ns is not None
         if ns is None:
             ns = {"p": rng.choice(FIELD_PREFIXES), "n": 0}
 
@@ -258,6 +266,15 @@ class DefGen:
                 all_int = all_int and sub_allint
                 fields.append(f)
                 dynamic_seen = dynamic_seen or fdyn
+                continue
+            # --- discard field: '_' is the one field name that may repeat within a structure (all of one type here: the
+            # library keeps a single attribute '_' per instance, which is written back for every such field). Not inside
+            # anonymous members: a '_' folded into a parent that has its own '_' makes the library fail at load time.
+            if sw.get("discard") and not is_union and not folded and rng.random() < 0.22:
+                f["name"] = "_"
+                f["type"] = ns.setdefault("dt", rng.choice(["uint8", "uint8", "uint16", "uint32", "char", "int64"]))
+                all_int = all_int and ns["dt"] != "char"
+                fields.append(f)
                 continue
             # --- enum
             is_enum = False
@@ -594,6 +611,8 @@ def leaf_paths(defs, sd, prefix=(), depth=0, through_union=False):
             if kind in ("struct", "union"):
                 yield from leaf_paths(defs, base, prefix, depth + 1, through_union or kind == "union" or sd["kind"] == "union")
             continue
+        if name == "_":
+            continue  # discard fields are not assignable locations (one attribute stands for all of them)
         path = prefix + (name,)
         info = {"path": list(path), "kind": kind, "base": base if isinstance(base, str) else base.get("name"),
                 "dims": f["dims"], "ptr": f["ptr"], "bits": f["bits"], "in_union": through_union or sd["kind"] == "union",
